@@ -165,6 +165,54 @@ def h_dm1(ex, n, cycle='1', dll='j1939-21', sym_lamps=2, cycles=2, stop=True, cl
     ex.witness()
 
 
+def h_dm1_history(ex, ops, n=1):
+    """start_send / stop_send histories on ONE Dm1 sender.  ops: ['start', cycle] | ['stop'] | ['wait', t].
+    While registrations are active every one of them sends at its cycle; after stop_send no further DM1 is sent, however
+    many times start_send had been called"""
+    w = W.World(ex, mode='interleave')
+    sa = Stack(w, 'A', 0x10)
+    sb = Stack(w, 'B', 0x20)
+    dtcs = [{'spn': ex.fresh_int('spn%d' % i, 0, (1 << 19) - 1), 'fmi': ex.fresh_int('fmi%d' % i, 0, 31), 'oc': ex.fresh_int('oc%d' % i, 0, 127)} for i in range(n)]
+    supplied = []
+
+    def supply():
+        w.callback_fired()
+        supplied.append(w.now)
+        return {'pl': 1}, [dict(d) for d in dtcs]
+    got = []
+    tx = j1939.Dm1(sa.ca)
+    rb = j1939.Dm1(sb.ca)
+    rb.subscribe(lambda sa_, lamps, dl, ts: (w.callback_fired(), got.append(w.now)))
+    w.run(until=T('1/100'))
+    active = []       # (start instant, cycle) of the registrations since the last stop
+    expect_min = 0
+    stopped_at = None
+    for op in ops:
+        if op[0] == 'start':
+            tx.start_send(supply, cycletime=Fraction(op[1]))
+            active.append((w.now, Fraction(op[1])))
+            stopped_at = None
+        elif op[0] == 'stop':
+            for (t0, c) in active:
+                k = 1
+                while bool(t0 + c * k + Fraction(1, 100) < w.now):
+                    k += 1
+                expect_min += k - 1
+            n_before = len(supplied)
+            ex.claim('dm1.history.sent_every_cycle_while_started', len(supplied) >= expect_min, {'supplied': len(supplied), 'expected_at_least': expect_min, 'ops': ops})
+            tx.stop_send(supply)
+            active = []
+            stopped_at = (w.now, n_before)
+        else:
+            w.run(until=w.now + T(op[1]))
+            if stopped_at is not None:
+                ex.claim('dm1.history.no_send_after_stop', len(supplied) == stopped_at[1], {'extra_cycles': len(supplied) - stopped_at[1], 'ops': ops})
+    w.run(until=w.now + T('1/10'))
+    ex.claim('dm1.history.received_what_was_sent', len(got) == len(supplied), {'received': len(got), 'supplied': len(supplied)})
+    ex.claim('job_threads_alive', sa.alive() and sb.alive())
+    ex.witness()
+
+
 def h_dm1_overlap(ex, n=3, cycle='3/50', cycles=5):
     """cycle shorter than the BAM it triggers and content that changes every cycle: a cycle that finds the
     previous transfer still running is legitimately skipped, but whatever a subscriber receives is exactly one
@@ -229,6 +277,19 @@ def jobs(tier):
     out.append(Job('C16', 'c16:h_dm1', {'n': 1, 'cycle': '1/5', 'sym_lamps': 1, 'cycles': 2, 'stop_from': 'timer'}, W=40, wall=300, validate=1))
     out.append(Job('C16', 'c16:h_dm1', {'n': 3, 'cycle': '1', 'sym_lamps': 1, 'cycles': 2, 'stop_from': 'timer'}, W=40, wall=300, validate=1))
     out.append(Job('C16', 'c16:h_dm1', {'n': 1, 'dll': 'j1939-22', 'cycle': '1/5', 'sym_lamps': 1, 'cycles': 2, 'stop_from': 'timer'}, W=40, wall=300, validate=1))
+    hists = [
+        [['start', '1/5'], ['wait', '1/2'], ['start', '3/10'], ['wait', '1'], ['stop'], ['wait', '1']],
+        [['start', '1/5'], ['start', '1/5'], ['wait', '1/2'], ['stop'], ['wait', '1']],
+        [['start', '1/5'], ['wait', '1/2'], ['stop'], ['wait', '1/2'], ['start', '1/10'], ['wait', '1/2'], ['stop'], ['wait', '1']],
+    ]
+    if not q:
+        hists += [
+            [['start', '1/10'], ['start', '1/5'], ['start', '3/10'], ['wait', '1'], ['stop'], ['wait', '1']],
+            [['start', '1/5'], ['wait', '3/10'], ['stop'], ['start', '1/5'], ['wait', '1/2'], ['start', '1'], ['wait', '1/2'], ['stop'], ['wait', '2']],
+            [['start', '1'], ['wait', '1/2'], ['stop'], ['wait', '2']],
+        ]
+    for h in hists:
+        out.append(Job('C16', 'c16:h_dm1_history', {'ops': h}, W=40, wall=300, validate=1))
     out.append(Job('C16', 'c16:h_dm1_overlap', {'n': 3, 'cycle': '3/50', 'cycles': 5}, W=40, wall=300, validate=1))
     out.append(Job('C16', 'c16:h_dm1_overlap', {'n': 5, 'cycle': '1/10', 'cycles': 6}, W=40, wall=300, validate=1))
     return out
@@ -240,7 +301,7 @@ def meta(tier):
                    'lamps: all 5^4 state combinations (split by the solver at the table lookup)',
                    'DM22: all SPN/FMI, destination 0..253, both request kinds',
                    'DM1 end to end on J1939-21 (single frame and BAM), number of codes n in ' + ('{1,2,3,15}' if tier == 'quick' else '{1..20,100,400,445}') + ', every DTC field symbolic, 1-4 lamps symbolic, 2-3 cycles, then stop_send (from the application, and from another timer callback due in the same pass) and 3 more cycle times',
-                   'DM1 end to end on J1939-22: n in ' + ('{1,14,15}' if tier == 'quick' else '{1,2,7,14,15,16,40,100}') + ' (multi-PG up to 58 bytes, FD BAM above)', 'cycle times 0.2 s / 1 s (>= transfer duration)', 'overlap shape: cycle time shorter than the BAM, trouble codes change every cycle (fresh symbolic SPN/OC per call): every received DM1 equals one supplied snapshot'],
-        'outside': ['cycle times shorter than the BAM they trigger', 'several start_send registrations on one Dm1 object'],
+                   'DM1 end to end on J1939-22: n in ' + ('{1,14,15}' if tier == 'quick' else '{1,2,7,14,15,16,40,100}') + ' (multi-PG up to 58 bytes, FD BAM above)', 'cycle times 0.2 s / 1 s (>= transfer duration)', 'start_send / stop_send histories on one Dm1 object: several start_send calls with equal and different cycle times, stop, restart', 'overlap shape: cycle time shorter than the BAM, trouble codes change every cycle (fresh symbolic SPN/OC per call): every received DM1 equals one supplied snapshot'],
+        'outside': ['cycle times shorter than the BAM they trigger (except the overlap shape)'],
         'assumptions': ['reference layouts jv/ref/dm.py from SAE J1939-73 field tables'],
     }
